@@ -300,6 +300,20 @@ def run_case(case):
                 how[n] = (how_twin or pres) + (f":{src}" if src != d else "")      # "<presentation>[:<narrower source dtype>]"
                 for p in pats.values():
                     res["patterns"]["special" if (d == "bool" or p in _special_patterns(src)) else "random"] += 1
+            # a caller that first hands over a value the FlatBuffers writer must refuse (right shape, a dtype that cannot be cast
+            # safely, on a non-first attribute), catches the error and carries on with the proper value: the accepted example that
+            # follows in the same shard must read back exactly (the refusal itself is C18's subject)
+            if case["fmt"] == "fb" and len(case["attrs"]) >= 2 and rng.random() < 0.3:
+                cand = [(n, d, tuple(s_)) for n, d, s_ in case["attrs"][1:] if d not in ("bytes", "str")]
+                if cand:
+                    bn, bd, bs = cand[-1]
+                    k = np.dtype(bd).kind
+                    badv = np.full(bs, 1 + 2j, dtype=np.complex128) if bd == "float64" else np.full(bs, 0.5, dtype=np.float64)
+                    try:
+                        f.write_example(values=dict(vals, **{bn: badv}), split="train")
+                        res["refusal_missing"] = res.get("refusal_missing", 0) + 1
+                    except Exception:  # noqa: BLE001
+                        res["refused_before_accept"] = res.get("refused_before_accept", 0) + 1
             try:
                 f.write_example(values=vals, split="train")
             except Exception as e:  # noqa: BLE001
